@@ -15,7 +15,11 @@ def run(ctx, n, kinds, par=4, passes=1):
     with open(allobs, "w") as out:
         for k in range(passes):
             obs = os.path.join(ctx.tmp, "txn_%d.ndjson" % k)
-            p = ctx.run_vh(["txn", "--n", n, "--seed", ctx.seed * 10 + k, "--kinds", kinds, "--par", par, "--out", obs], timeout=3000)
+            trf = os.path.join(ctx.tmp, "txntr_%d.ndjson" % k)
+            p = ctx.run_vh(["txn", "--n", n, "--seed", ctx.seed * 10 + k, "--kinds", kinds, "--par", par, "--out", obs, "--traces", trf], timeout=3000)
+            if os.path.exists(trf):
+                with open(os.path.join(ctx.tmp, "txntr_all.ndjson"), "a") as tf:
+                    tf.write(open(trf).read())
             faults += json.loads(p.stdout.strip().splitlines()[-1])["faults"]
             out.write(open(obs).read())
     # design level: exhaustive model check of the implementation-shaped send/reply/registry model
@@ -57,7 +61,22 @@ def run(ctx, n, kinds, par=4, passes=1):
         ctx.violation("recorded send/reply history rejected by prop/Txn clause %s (%s), %d scenario(s)" % (g["clause"], sig, g["n"]),
                       dict(binding="B2 scripted peer + acceptor", signature=sig, clause=g["clause"], occurrences=g["n"],
                            scenario=json.loads(common.short(json.dumps(d), 100000)) if len(json.dumps(d)) < 100000 else None))
-    ctx.cov.update(states=mc["distinct"] + res["states"], transitions=mc["generated"] + res["transitions"], traces_validated_against_impl=len(lines),
+    # model-level binding (C06 only, it is the same recording for the three properties): every single-generation scenario's
+    # peer-side event log is validated as a behaviour of impl/SendReply with the library's steps inferred
+    ntr, trej, tstates = 0, [], 0
+    if pid == "C06":
+        ntr, trej, tstates = validate_traces(ctx, os.path.join(ctx.tmp, "txntr_all.ndjson"))
+        tg = {}
+        for tr, hw in trej:
+            nxt = tr["events"][hw] if hw < len(tr["events"]) else None
+            sig = "c06:trace:%s:%s" % (tr["kind"], ("%s-%s" % (nxt["d"], nxt["k"])) if nxt else "final")
+            g = tg.setdefault(sig, dict(n=0, first=dict(trace=tr, matched_prefix=hw, next_event=nxt or "(end: outcomes / deliveries do not match any behaviour)")))
+            g["n"] += 1
+        for sig, g in sorted(tg.items()):
+            ctx.violation("peer-side event log is not a behaviour of impl/SendReply (%s), %d scenario(s): %s" % (sig, g["n"], common.short(g["first"], 600)),
+                          dict(binding="B3 trace validation (TraceSendReply)", signature=sig, occurrences=g["n"], observation=g["first"]))
+    ctx.cov["model_level_traces"] = ntr
+    ctx.cov.update(states=mc["distinct"] + res["states"] + tstates, transitions=mc["generated"] + res["transitions"], traces_validated_against_impl=len(lines),
                    model=dict(module="impl/SendReply.tla", cfg="MC_SendReply.cfg (2 senders, 2 epochs, 3 system-bytes values, 3 peer messages)",
                               distinct_states=mc["distinct"], generated=mc["generated"], depth=mc["depth"],
                               invariants="NeverNilNil OwnReply InflightConserves SendMatchesWire NoStaleFrame UniqueSb RegistryClean NoDataWhenNotSelected",
@@ -72,6 +91,67 @@ def run(ctx, n, kinds, par=4, passes=1):
                         "peer receive time stands in for 'written' time (it is never earlier than the write)",
                         "handlers return; loopback TCP"]
     return res
+
+
+def validate_traces(ctx, path, mutate=None):
+    """One TLC run (depth-first) of trace/TraceSendReply per recorded txntrace line. Returns (n, rejected[(trace, highwater)], states)."""
+    import re
+    from concurrent.futures import ThreadPoolExecutor
+    if not os.path.exists(path):
+        return 0, [], 0
+    traces = [json.loads(l) for l in open(path) if l.strip()]
+    if mutate:
+        traces = mutate(traces)
+    work = common.stage_spec(os.path.join(ctx.tmp, "spec-trace-sr"))
+
+    def one(it):
+        i, tr = it
+        f = os.path.join(ctx.tmp, "srtr_%d.ndjson" % i)
+        with open(f, "w") as fh:
+            fh.write(json.dumps(tr) + "\n")
+        r = common.run_tlc(work, "TraceSendReply", cfg="TraceSendReply.cfg", workers=1, env={"VERIF_IN": f}, timeout=900, xss="64m", deque=True,
+                           heap="1g -XX:ActiveProcessorCount=2 -XX:TieredStopAtLevel=1")
+        os.unlink(f)
+        if r["invariant"] == "NotAccepted":
+            return (tr, None, r["distinct"])
+        if not r["ok"]:
+            raise common.Inconclusive("TraceSendReply failed on a trace: %s\n%s" % (r["error"], r["out"][-2000:]))
+        hw = [int(m.group(1)) for m in re.finditer(r'<<"HW", (\d+), \d+>>', r["out"])]
+        return (tr, max(hw) if hw else 0, r["distinct"])
+
+    with ThreadPoolExecutor(max_workers=12) as ex:
+        results = list(ex.map(one, enumerate(traces)))
+    return len(traces), [(tr, hw) for (tr, hw, _) in results if hw is not None], sum(s for (_, _, s) in results)
+
+
+def selftest_traces(ctx):
+    """binding demonstration for the model-level trace validation: corrupt outcomes / deliveries / system bytes"""
+    obs = os.path.join(ctx.tmp, "st.ndjson"); trf = os.path.join(ctx.tmp, "st_tr.ndjson")
+    ctx.run_vh(["txn", "--n", 24, "--seed", 7, "--kinds", "plain,cancel", "--par", 3, "--out", obs, "--traces", trf], timeout=600)
+    n0, rej0, _ = validate_traces(ctx, trf)
+
+    def mutate(traces):
+        out = []
+        for k, tr in enumerate(traces):
+            tr = json.loads(json.dumps(tr))
+            if k % 3 == 0:        # a reply reported although the peer never answered that call
+                i = next((i for i, o in enumerate(tr["outcomes"]) if o == "t3"), None)
+                if i is None:
+                    continue
+                tr["outcomes"][i] = "reply"
+            elif k % 3 == 1:      # one delivery to the handlers too many
+                tr["delivered"] = tr["delivered"] + [tr["call_sbi"][0]]
+            else:                 # the peer's answer carries another call's system bytes, same recorded outcomes
+                txs = [e for e in tr["events"] if e["d"] == "tx" and e["k"] == "secondary" and e["sbi"] in tr["call_sbi"]]
+                others = [b for b in tr["call_sbi"] if txs and b != txs[0]["sbi"] and tr["outcomes"][tr["call_sbi"].index(b)] == "t3"]
+                if not txs or not others:
+                    continue
+                txs[0]["sbi"] = others[0]
+            out.append(tr)
+        return out
+    n1, rej1, _ = validate_traces(ctx, trf, mutate=mutate)
+    common.log("model-level traces: unmutated %d (%d rejected); mutated %d (%d rejected)" % (n0, len(rej0), n1, len(rej1)))
+    return n0 > 5 and not rej0 and n1 > 3 and len(rej1) == n1
 
 
 def selftest(ctx, mutate):
